@@ -226,11 +226,13 @@ impl<'a> Namespace<'a> {
         while !defs_stack.is_empty() {
             if let Some(defs) = defs_stack.pop() {
                 for def in defs {
-                    sub_types.insert(def);
+                    // A def is expanded the first time it is met only, so that an 'is'
+                    // graph with a cycle (or many diamonds) is still walked in finite time.
+                    if sub_types.insert(def) {
+                        let next_subtypes = self.subtypes_of(def.def_symbol());
 
-                    let next_subtypes = self.subtypes_of(def.def_symbol());
-
-                    defs_stack.push(next_subtypes)
+                        defs_stack.push(next_subtypes)
+                    }
                 }
             }
         }
@@ -306,11 +308,13 @@ impl<'a> Namespace<'a> {
         while !defs_stack.is_empty() {
             if let Some(defs) = defs_stack.pop() {
                 for def in defs {
-                    super_types.insert(def);
-
-                    let next_subtypes = self.supertypes_of(def.def_symbol());
-                    if !next_subtypes.is_empty() {
-                        defs_stack.push(next_subtypes.clone())
+                    // A def is expanded the first time it is met only, so that an 'is'
+                    // graph with a cycle (or many diamonds) is still walked in finite time.
+                    if super_types.insert(def) {
+                        let next_subtypes = self.supertypes_of(def.def_symbol());
+                        if !next_subtypes.is_empty() {
+                            defs_stack.push(next_subtypes.clone())
+                        }
                     }
                 }
             }
